@@ -101,7 +101,14 @@ pub enum RealKind {
     NotExecutable,
     /// `cmd[0]` is a real program, run as it is
     Program,
+    /// like `Simchild`, but the command is given as a bare name and found through PATH: the
+    /// last of two PATH directories holds it; with `shadowed` the first one holds a file of
+    /// the same name that is not executable (the search goes on, as execvp's does)
+    SimchildOnPath { shadowed: bool },
 }
+
+/// The bare command name used by `RealKind::SimchildOnPath`.
+pub const PATH_CMD: &str = "fusim-path-cmd";
 
 impl XargsScenario {
     pub fn argv(&self) -> Vec<String> {
@@ -221,6 +228,7 @@ pub fn run_xargs_with(sc: &XargsScenario, plan: &[ReadOp], ctx: &mut Ctx) -> Xar
     // pass-through mode: resolve the placeholder command
     let mut cmd = sc.cmd.clone();
     let mut log_path = None;
+    let mut path_override: Option<String> = None;
     if let Some(kind) = &sc.real {
         let dir = ctx.scratch.join("x");
         crate::sys::wipe(&dir);
@@ -243,6 +251,34 @@ pub fn run_xargs_with(sc: &XargsScenario, plan: &[ReadOp], ctx: &mut Ctx) -> Xar
                     lp.to_string_lossy().into_owned(),
                     sp.to_string_lossy().into_owned(),
                 ];
+                c.extend(sc.cmd.iter().skip(1).cloned());
+                cmd = c;
+                log_path = Some(lp);
+            }
+            RealKind::SimchildOnPath { shadowed } => {
+                let lp = dir.join("child.log");
+                let sp = dir.join("child.script");
+                let mut script = String::new();
+                for o in &sc.outcomes {
+                    match o {
+                        Outcome::Exit(c) => script.push_str(&format!("exit {c}\n")),
+                        Outcome::Signal(s, _) => script.push_str(&format!("signal {s}\n")),
+                        _ => script.push_str("exit 0\n"),
+                    }
+                }
+                let _ = std::fs::write(&sp, script);
+                let (p1, p2) = (dir.join("p1"), dir.join("p2"));
+                let _ = std::fs::create_dir_all(&p1);
+                let _ = std::fs::create_dir_all(&p2);
+                let _ = std::os::unix::fs::symlink(&ctx.simchild, p2.join(PATH_CMD));
+                if *shadowed {
+                    use std::os::unix::fs::PermissionsExt;
+                    let f = p1.join(PATH_CMD);
+                    let _ = std::fs::write(&f, b"not a program\n");
+                    let _ = std::fs::set_permissions(&f, std::fs::Permissions::from_mode(0o644));
+                }
+                path_override = Some(format!("{}:{}", p1.display(), p2.display()));
+                let mut c = vec![PATH_CMD.to_string(), lp.to_string_lossy().into_owned(), sp.to_string_lossy().into_owned()];
                 c.extend(sc.cmd.iter().skip(1).cloned());
                 cmd = c;
                 log_path = Some(lp);
@@ -281,7 +317,7 @@ pub fn run_xargs_with(sc: &XargsScenario, plan: &[ReadOp], ctx: &mut Ctx) -> Xar
     // real children: what is left on fd 0 of this process stands for xargs' own input stream
     // (the arguments themselves come through the seam); a child must not be able to read it
     // (with -a the children are meant to keep xargs' standard input)
-    let probe_stdin = matches!(sc.real, Some(RealKind::Simchild)) && !arg_file;
+    let probe_stdin = matches!(sc.real, Some(RealKind::Simchild) | Some(RealKind::SimchildOnPath { .. })) && !arg_file;
     if probe_stdin {
         crate::sys::stdin_marker(b"these bytes stand for xargs' own standard input\n");
     }
@@ -290,6 +326,11 @@ pub fn run_xargs_with(sc: &XargsScenario, plan: &[ReadOp], ctx: &mut Ctx) -> Xar
     let comm = sc.extra.real_arg_file == Some(ArgFileKind::ProcComm) && arg_file;
     let name: Vec<u8> = sc.input.0.iter().copied().take_while(|b| *b != b'\n' && *b != 0).take(15).collect();
     let guard = sc.extra.ambient.enter();
+    let saved_path = path_override.as_ref().map(|p| {
+        let old = std::env::var_os("PATH");
+        std::env::set_var("PATH", p);
+        old
+    });
     let (status, stderr) = match sc.extra.stack_kib {
         None => ctx.run_guarded(Box::new(world), move || {
             let _name = if comm { Some(ThreadName::set(&name)) } else { None };
@@ -329,6 +370,12 @@ pub fn run_xargs_with(sc: &XargsScenario, plan: &[ReadOp], ctx: &mut Ctx) -> Xar
             out.expect("run result")
         }
     };
+    if let Some(old) = saved_path {
+        match old {
+            Some(v) => std::env::set_var("PATH", v),
+            None => std::env::remove_var("PATH"),
+        }
+    }
     drop(guard);
     let stdout = capture.map(|c| c.finish()).unwrap_or_default();
     let log = Rc::try_unwrap(log)
